@@ -175,6 +175,14 @@ func ruleC09Total(c *Ctx) {
 				fs := factsAt(b)
 				upper := proveLTLen(idx, x, fs, 0)
 				lower := proveGE0(idx, fs, 0)
+				if !upper {
+					// index + 1 <= len(x) in the difference-bound domain (two len() calls of one value are one quantity there)
+					l := linOf(idx)
+					upper = proveLin(lin{l.base, l.off + 1}, lin{lenKey{x}, 0}, fs, nil, 0)
+				}
+				if !lower {
+					lower = proveLin(lin{nil, 0}, linOf(idx), fs, nil, 0)
+				}
 				if k, isC := constIntOf(idx); isC && k == 0 && !upper {
 					// element 0 of a value known to be non-empty
 					if libLenAtLeast1(x) || regexpMatchElem(x) {
@@ -220,14 +228,17 @@ func ruleC09Total(c *Ctx) {
 						}
 					}
 					if !okLow {
+						okLow = proveLELenLin(in.Low, in.X, fs)
+					}
+					if !okLow {
 						why = append(why, "low bound "+NewTB().Of(in.Low).String()+" not proven <= len")
 					}
-					if !proveGE0(in.Low, fs, 0) {
+					if !proveGE0(in.Low, fs, 0) && !proveLin(lin{nil, 0}, linOf(in.Low), fs, nil, 0) {
 						why = append(why, "low bound not proven >= 0")
 					}
 				}
 				if in.High != nil {
-					if !proveLELen(in.High, in.X, fs, 0) {
+					if !proveLELen(in.High, in.X, fs, 0) && !proveLELenLin(in.High, in.X, fs) {
 						why = append(why, "high bound "+NewTB().Of(in.High).String()+" not proven <= len")
 					}
 					if in.Low != nil {
@@ -237,6 +248,9 @@ func ruleC09Total(c *Ctx) {
 							if fc.x == in.Low && fc.y == in.High && (fc.r == relLE || fc.r == relLT || fc.r == relEQ) {
 								okLH = true
 							}
+						}
+						if !okLH {
+							okLH = proveLE(in.Low, in.High, fs)
 						}
 						if !okLH {
 							why = append(why, "low <= high not proven")
